@@ -173,7 +173,7 @@ func (x *Exec) tryComprehension(fr *Frame, li *loopInfo, pred *ssa.BasicBlock, s
 	var dst *ssa.MakeSlice
 	for _, ins := range body.Instrs {
 		switch v := ins.(type) {
-		case *ssa.IndexAddr, *ssa.FieldAddr, *ssa.Field, *ssa.Index, *ssa.Alloc, *ssa.Slice, *ssa.Jump, *ssa.DebugRef, *ssa.ChangeType, *ssa.Convert:
+		case *ssa.IndexAddr, *ssa.FieldAddr, *ssa.Field, *ssa.Index, *ssa.Alloc, *ssa.Slice, *ssa.Jump, *ssa.DebugRef, *ssa.ChangeType, *ssa.Convert, *ssa.MakeInterface, *ssa.ChangeInterface:
 		case *ssa.BinOp:
 		case *ssa.UnOp:
 			if v.Op != token.MUL {
